@@ -27,6 +27,27 @@ From GV Require Import Common.Outcome Base.Grammar Base.Analyses LR.Automaton LR
   C03.Model C03.Spec C16.Model C16.Spec C01.Pipeline.
 Import ListNotations.
 
+(* ---- two more facts about every graph pager_mirror returns (PipelineEdges.v) -------------------- *)
+
+(* every `edges[i]` is a map: distinct symbols *)
+Definition ENoDup (edges : list (list (sym * nat))) : Prop :=
+  Forall (fun es => NoDup (map fst es)) edges.
+
+Definition pager_mirror_edges_nodup_stmt : Prop :=
+  forall g nl fs max_st fuel orders pg,
+    pager_mirror g nl fs max_st fuel orders = Done pg -> ENoDup (pg_edges pg).
+
+(* after gc every state is reachable from state 0 along edges *)
+Inductive pg_reach (edges : list (list (sym * nat))) : nat -> Prop :=
+| pgr_start : pg_reach edges 0
+| pgr_edge s es X t : pg_reach edges s -> nth_error edges s = Some es -> assoc_sym X es = Some t ->
+    pg_reach edges t.
+
+Definition pager_mirror_all_reachable_stmt : Prop :=
+  forall g nl fs max_st fuel orders pg, loop_pre g nl fs ->
+    pager_mirror g nl fs max_st fuel orders = Done pg ->
+    forall j, (j < length (pg_states pg))%nat -> pg_reach (pg_edges pg) j.
+
 Definition prec_unsettled (g : grammar) (tp pp : precs) (b : built) : Prop :=
   forall s a p, In s (states (built_automaton b)) ->
     edge (built_automaton b) s (T a) <> None ->
@@ -94,6 +115,16 @@ Definition construction_accepts_sentences_stmt : Prop :=
     conflict_free_report g tp pp b ->
     forall w, sentence g w -> no_eof g w ->
       exists fuel' t, run g (built_automaton b) fuel' w = RAccept t.
+
+(* ... and "conflicts() is None" ALONE does not give completeness: a grammar, declarations and a
+   sentence such that the construction reports nothing and the parser rejects the sentence
+   (witness in PipelineExamples.v: %nonassoc '<'  E : E '<' E | 'n'  on  n < n < n) *)
+Definition construction_complete_reports_only_refuted_stmt : Prop :=
+  exists g ds pn max_st fuel b w,
+    wf_grammar g = true /\
+    from_yacc_decl g ds pn max_st fuel [] [] = Done (Some b) /\ reports_no_conflict b = true /\
+    sentence g w /\ no_eof g w /\ tokens_in_range g w /\
+    exists k st, run g (built_automaton b) 100 w = RReject k st.
 
 (* no precedence declared: "reports no conflicts" is all that is needed *)
 Definition construction_noprec_complete_stmt : Prop :=
